@@ -181,6 +181,31 @@ def property_fails_on(op, impl):
     return None
 
 
+def qs_oracle(where, recs, topic, channel, node_addr_ok=True):
+    """Every command nsqadmin sent names exactly the topic / channel of the request: its query string, decoded by
+    the rules of application/x-www-form-urlencoded (python's urllib, not Go's), gives them back — whatever
+    characters the unvalidated path parameters contain (audit C17)."""
+    import urllib.parse
+    for r in recs:
+        if not r.startswith("P:") or "?" not in r:
+            continue
+        path, _, qs = r[2:].partition("?")
+        try:
+            q = urllib.parse.parse_qs(qs, keep_blank_values=True, strict_parsing=True, errors="strict")
+        except ValueError:
+            return "%s: command %s has a query string that does not parse" % (where, r)
+        allowed = {"topic", "channel", "node"}
+        if set(q) - allowed or any(len(v) != 1 for v in q.values()):
+            return "%s: command %s carries unexpected or repeated arguments %s" % (where, r, sorted(q))
+        if q.get("topic", [None])[0] != topic:
+            return "%s: command %s names topic %r, the request was about %r" % (where, r, q.get("topic", [None])[0], topic)
+        if "channel" in q and q["channel"][0] != channel:
+            return "%s: command %s names channel %r, the request was about %r" % (where, r, q["channel"][0], channel)
+        if "/channel/" in path and "channel" not in q:
+            return "%s: channel command %s names no channel" % (where, r)
+    return None
+
+
 def notify_oracle(f, status, notes):
     """Exactly one notification per performed action, none without an admin identity / a configured endpoint /
     a performed action — from the request and the answer alone (no Lean). pause/unpause/empty announce before
@@ -226,6 +251,15 @@ def fanout_missing(f, reqs, status):
     where = "%s /%s" % (f["m"], "/".join(segs))
     rep = lambda n: nd[n][4] if n in nd and len(nd[n]) > 4 else n   # the address the node's /info claims
     posts = [g for g in got if g.startswith("P:")]
+    if f["m"] == "POST" and len(segs) == 2:
+        rt, rc = unhex(f.get("btopic", "-")), unhex(f.get("bchan", "-"))
+    elif len(segs) >= 3 and segs[1] == "nodes":
+        rt, rc = unhex(f.get("btopic", "-")), ""
+    else:
+        rt, rc = (segs[2] if len(segs) > 2 else ""), (segs[3] if len(segs) > 3 else "")
+    bad = qs_oracle(where, posts, rt, rc)
+    if bad:
+        return bad
     lk_up = [l for l in lk if l[1] == "1"]
     via_lookupd = set(x for l in lk_up if l[2] != "-" for x in l[2].split("+"))
     need_lookupd = None       # substring of the command every configured nsqlookupd must have received
@@ -331,6 +365,9 @@ def prog_oracle(op, impl):
     if res == "partial" and errs == 0:
         return "%s returned an empty error list" % where
     posts = [r for r in recs if r.startswith("P:")]
+    bad = qs_oracle(where, posts, unhex(f.get("topic", "-")), unhex(f.get("channel", "-")))
+    if bad:
+        return bad
     if kind in ("createTopic", "createChannel", "tombstone") or (kind in LOOKUPD_CMDS and res != "full"):
         for c in LOOKUPD_CMDS[kind]:
             for l in lk:
@@ -501,6 +538,24 @@ def run(ctx):
                 bad = property_fails_on(o, i) or cidr_oracle(o, i)
                 if bad:
                     ctx.violation(key_of(o, bad), bad, "request: %s\nop: %s\nimpl: %s\n" % (describe_op(o), o, i))
+            # read-only views stay available *whoever asks*: the same GET view against the same upstreams must be
+            # answered alike for every identity / admin list / ACL header name of the stream
+            seen_view = {}
+            for o, i in zip(ops, impl):
+                if not o.startswith("gate ") or " m=GET " not in o:
+                    continue
+                toks = o.split()
+                ident = [t for t in toks if t.split("=")[0] in ("users", "acl", "hdrs")]
+                rest = " ".join(t for t in toks if t.split("=")[0] not in ("users", "acl", "hdrs"))
+                segs0 = parse_op(o)["segs"]
+                if segs0 and segs0[0] == "config":
+                    continue
+                if rest in seen_view and seen_view[rest][0] != i:
+                    ctx.violation("view-identity:/" + "/".join(pattern_of(segs0)),
+                                  "GET /%s is answered %r for identity [%s] and %r for identity [%s]: a read-only view depends "
+                                  "on who asks" % ("/".join(segs0), seen_view[rest][0], " ".join(seen_view[rest][1]), i, " ".join(ident)),
+                                  "op: %s\nimpl: %s\nother identity: %s\nimpl: %s\n" % (o, i, " ".join(seen_view[rest][1]), seen_view[rest][0]))
+                seen_view.setdefault(rest, (i, ident))
             diffs = ctx.diff_lines(impl, model, name)
             for idx, a, b in diffs:
                 ctx.log("model/impl disagree on `%s`:\n   impl=%s\n  model=%s" % (ops[idx][:400], a, b))
